@@ -45,6 +45,15 @@ Theorem C19_trunc_generic : forall D F b k,
 Proof. exact trunc_generic. Qed.
 Print Assumptions C19_trunc_generic.
 
+(* ---- in the words of the property: every scalar token of the result (Unquoted, Quoted, Parameter,
+        UndefinedParameter, Header) sits at the index where the original tape has a scalar, and its bytes
+        are a prefix of that scalar's bytes: never extended, never merged with a neighbour, never invented ---- *)
+Theorem C19_scalars_prefix : forall F t i x s,
+  consistent_tape F t -> nth_error t i = Some x -> TextTapeWf.scalar_bytes x = Some s ->
+  exists y s', nth_error F i = Some y /\ TextTapeWf.scalar_bytes y = Some s' /\ bytes_prefix s s'.
+Proof. exact consistent_scalars. Qed.
+Print Assumptions C19_scalars_prefix.
+
 (* ---- position-wise reading of prefix_cut: all tokens but the last are the original's ---- *)
 Theorem C19_prefix_cut_tokens : forall t F i,
   prefix_cut t F -> i + 1 < length t -> nth_error t i = nth_error F i.
